@@ -434,22 +434,39 @@ def run(prog, rep):
     _nar = []
     _nst = 0
 
-    def _chain(f_, e_, hops=4):
-        """every node of e_ and of the initialisers of the single-definition locals it reads (with those locals' own types)"""
+    def _defs(f_, name):
+        out = []
+        for (b_, i_, n_) in f_.nodes(elsewhere=True):
+            if n_["k"] == "asg" and n_.get("op") == "=" and strip_casts(n_["l"]) is not None and strip_casts(n_["l"])["k"] == "ref" and strip_casts(n_["l"])["name"] == name:
+                out.append(n_["r"])
+            elif n_["k"] == "decl" and n_.get("name") == name and n_.get("init") is not None:
+                out.append(n_["init"])
+        return out
+
+    def _chain(f_, e_, hops=5, seen=None):
+        """every node of e_ and of every definition of the locals it reads (with those locals' own types): `existing = st.st_size`,
+        a helper's `return (psize) st.st_size` (a temporary of the folded-in view with one definition per return)"""
+        seen = set() if seen is None else seen
         for x in walk(e_):
             yield x
-            if x["k"] == "ref" and x.get("decl") == "local" and hops > 0:
-                r_ = f_.resolve(x)
-                if r_ is not None:
+            if x["k"] == "ref" and x.get("decl") == "local" and hops > 0 and x["name"] not in seen:
+                seen.add(x["name"])
+                ds = _defs(f_, x["name"])
+                if ds:
                     yield {"k": "cast", "_local": x}
-                    for y in _chain(f_, r_, hops - 1):
+                for r_ in ds:
+                    for y in _chain(f_, r_, hops - 1, seen):
                         yield y
-    for _f in _su.functions.values():
+    _done = set()
+    for _f in _su.roots():
         for (_b, _i, _n) in _f.nodes(elsewhere=True):
             if not (_n["k"] == "asg" and strip_casts(_n["l"])["k"] == "member" and strip_casts(_n["l"])["field"] == "size"):
                 continue
+            if line(_n) in _done:
+                continue
             _nodes = list(_chain(_f, _n["r"]))
             if any(x["k"] == "member" and x.get("field") == "st_size" for x in _nodes):
+                _done.add(line(_n))
                 _nst += 1
                 _tw = (_su.type_of(strip_casts(_n["l"])) or {}).get("w") or 64
                 for x in _nodes:
